@@ -391,6 +391,19 @@ fn custom_cases() -> Vec<CustomCase> {
             }
         }
     }
+    // a line of 300 characters (cell offsets beyond 8-bit counters; atlas rows revisited many times)
+    let long: String = (0..300).map(|i| ['a', 'b', 'c', 'd', 'x', 'y', 'z', 'Q'][(i * 5 + i / 7) % 8]).collect();
+    for (cw, ch) in [(3u32, 4u32), (8, 8)] {
+        for gpr in [1u32, 4, 16] {
+            for spacing in [0u32, 3] {
+                for mapping in [0u8, 1] {
+                    for deco in [3u8, 12] {
+                        v.push(CustomCase { cw, ch, spacing, glyphs_per_row: gpr, extra: 0, mapping, deco, text: long.clone() });
+                    }
+                }
+            }
+        }
+    }
     v
 }
 
@@ -416,7 +429,7 @@ fn run_part(run: &mut Run) {
                 }
                 v
             }, check_mapping);
-            run.sweep_vec("custom-fonts", "synthetic atlases: character sizes {3x4,5x2,8x8,1x1} x glyphs per row {1,4,16} x spacing {0,1,3} x extra atlas columns {0,w-1} x StrGlyphMapping with ranges/closure mapping with replacement index x 16 colour/decoration sets x 6 strings (one with three lines, CR LF and lines starting with a carriage return)", custom_cases, check_custom);
+            run.sweep_vec("custom-fonts", "synthetic atlases: character sizes {3x4,5x2,8x8,1x1} x glyphs per row {1,4,16} x spacing {0,1,3} x extra atlas columns {0,w-1} x StrGlyphMapping with ranges/closure mapping with replacement index x 16 colour/decoration sets x 6 strings (one with three lines, CR LF and lines starting with a carriage return), plus a 300-character line for a subset", custom_cases, check_custom);
         }
         "draw-a" => run.sweep_vec("glyphs", "every (built-in font, mapped character) plus 9 unmapped characters, single character and 3-character strings, colour/decoration sets (all 16 in thorough, all for unmapped and a rotating subset for mapped in quick)", || draw_cases(tier, &SUBSETS[..7]), check_draw),
         "draw-b" => run.sweep_vec("glyphs", "every (built-in font, mapped character) plus 9 unmapped characters, single character and 3-character strings, colour/decoration sets", || draw_cases(tier, &SUBSETS[7..]), check_draw),
